@@ -436,9 +436,40 @@ func ruleGEPVLEN(c *Ctx) []Obligation {
 			if !ok {
 				return true
 			}
-			for _, st := range rs.Body.List { // top level of the loop body only: every index form passes here
+			skipPos := token.NoPos
+			isVecTest := func(st ast.Stmt) bool {
 				is, ok := st.(*ast.IfStmt)
 				if !ok || is.Init == nil {
+					return false
+				}
+				as, ok := is.Init.(*ast.AssignStmt)
+				if !ok || len(as.Rhs) != 1 {
+					return false
+				}
+				ta, ok := as.Rhs[0].(*ast.TypeAssertExpr)
+				return ok && ta.Type != nil && isNamed(info.TypeOf(ta.Type), pkgTYP, "VectorType")
+			}
+			for _, st := range rs.Body.List { // top level of the loop body only: every index form passes here
+				is, ok := st.(*ast.IfStmt)
+				if !isVecTest(st) {
+					// a statement that can leave the iteration (continue / break / return) before the
+					// type test is reached: some index form never has its type examined
+					ast.Inspect(st, func(m ast.Node) bool {
+						switch m := m.(type) {
+						case *ast.FuncLit, *ast.ForStmt, *ast.RangeStmt:
+							return false
+						case *ast.BranchStmt:
+							if (m.Tok == token.CONTINUE || m.Tok == token.BREAK) && skipPos == token.NoPos {
+								skipPos = m.Pos()
+							}
+						case *ast.ReturnStmt:
+							// an error return abandons the whole computation, it does not skip the test
+							if skipPos == token.NoPos && !returnsError(info, []ast.Stmt{m}) {
+								skipPos = m.Pos()
+							}
+						}
+						return true
+					})
 					continue
 				}
 				as, ok := is.Init.(*ast.AssignStmt)
@@ -465,7 +496,10 @@ func ruleGEPVLEN(c *Ctx) []Obligation {
 					}
 					return true
 				})
-				if setsLen && setsScal {
+				if setsLen && skipPos != token.NoPos {
+					o.Verdict, o.Pos = VIOL, c.pos(skipPos)
+					o.Detail = "an index can leave the iteration (continue / break / return at " + c.pos(skipPos) + ") before the test that takes VectorLen from the index operand's type: for that index form a vector-typed index (zeroinitializer, undef, a constant expression …) yields a scalar pointer result type"
+				} else if setsLen && setsScal {
 					o.Verdict, o.Pos = OK, c.pos(is.Pos())
 					o.Detail = "every index: VectorLen and scalability taken from the index operand's type"
 				} else if setsLen {
